@@ -9,8 +9,8 @@ from ..sx import explore, ex, PathAbort
 from . import c04
 
 A, B, C = c04.A, c04.B, "/'g'/'c'"
-PATHS_EAGER = ['slice_all', 'ellipsis', 'read_data', 'data', 'iter', 'index', 'raw_data', 'read_unscaled', 'window', 'raw_after_scaled']
-PATHS_LAZY = ['slice_all', 'ellipsis', 'read_data', 'iter', 'index', 'chan_chunks', 'file_chunks', 'read_unscaled', 'window', 'raw_after_scaled']
+PATHS_EAGER = ['slice_all', 'ellipsis', 'read_data', 'data', 'iter', 'index', 'index_again', 'raw_data', 'read_unscaled', 'window', 'raw_after_scaled']
+PATHS_LAZY = ['slice_all', 'ellipsis', 'read_data', 'iter', 'index', 'index_again', 'chan_chunks', 'file_chunks', 'read_unscaled', 'window', 'raw_after_scaled']
 
 from . import kdedup
 
@@ -33,7 +33,7 @@ META = dict(
                'tdms.TdmsChannel._read_at_index', 'tdms._convert_channel_data_chunk', 'channel_data.TimestampDataReceiver',
                'channel_data.NumpyDataReceiver', 'channel_data.ListDataReceiver', 'reader.TdmsReader.read_raw_data',
                'reader._array_equal', 'reader._deduplicate_array'],
-    bounds=dict(quick='9 file shapes (2-3 segments, <= 3 channels, <= 3 values x <= 2 chunks) x eager/lazy x raw_timestamps on/off x 9 access '
+    bounds=dict(quick='9 file shapes (2-3 segments, <= 3 channels, <= 3 values x <= 2 chunks) x eager/lazy x raw_timestamps on/off x 11 access '
                       'paths; index and window unbounded (lazy) / bounded (eager); kernel: offset-array comparison of _build_index on arrays of solver '
                       'integers, lengths 0-6 with block size 1-4 (general) and 0..201 around multiples of the default block (one differing position)',
                 thorough='same plus the C04 thorough family for the window path'),
@@ -182,10 +182,12 @@ def access(tf, ch, kind, ctx_int, n, tcode, raw_ts, eager, args=None):
         return _canon(ch.read_data(scaled=False), tcode, raw_ts), None
     if kind == 'iter':
         return [_one(v, tcode, raw_ts) for v in ch], None
-    if kind == 'index':
+    if kind in ('index', 'index_again'):
         i = ctx_int('i', -n - 1 if eager else None, n if eager else None)
         try:
             v = ch[i]
+            if kind == 'index_again':
+                v = ch[i]           # the same request once more on the same object (served from the one-chunk cache when lazy)
         except IndexError:
             return 'IndexError', ('index', i)
         return [_one(v, tcode, raw_ts)], ('index', i)
